@@ -31,12 +31,12 @@ CLAIMED = {
     "C04": dict(
         text="dr_exp is tied to the code's own exp by the definition of the right Jacobian (symbolic derivative of exp's output), dr_expinv/dl_expinv are exact "
              "inverses, dl_exp = Ad(exp) dr_exp, dr_action and dr_rminus* equal their definitions, on all closed-form paths; every small-angle branch is within "
-             "1e-7 (relative to the largest entry, class-wise in the translation coordinates) of its closed form, for every combination of series / closed-form tails. "
-             "Rounding: bounded stand-in only (found and repaired: cancellation above the old eps2 switch, total loss in float).",
+             "1e-7 (relative to the largest entry, class-wise in the translation coordinates) of its closed form, for every combination of series / closed-form tails, "
+             "and finite and continuous at exactly zero rotation. Rounding: bounded stand-in only (found and repaired: cancellation above the old eps2 switch, total loss in float).",
         note="A1; A2; A5; A6; A7; A8.", tech=IRSX + "symbolic differentiation + exact normal form; truncated-series bounds on small-angle paths", ref="4 C04"),
     "C05": dict(
         text="d2r_exp/d2r_expinv/d2l_* equal the entrywise symbolic derivatives of the code's own dr_exp/dr_expinv/dl_* in the documented stacked layout "
-             "(the transposed layout is refuted as a canary), small-angle branches within 1e-5 relative, d2r_rminus* and the helpers d_matrix_product / d2_fog "
+             "(the transposed layout is refuted as a canary), small-angle branches within 1e-5 relative and finite / continuous at exactly zero rotation, d2r_rminus* and the helpers d_matrix_product / d2_fog "
              "equal the product/chain rule for symbolic matrices of sizes 1..4 x 1..3. Found and repaired: SE2::d2r_exp small-angle constant; the eps2 switches and "
              "one-term series of the second-derivative helpers (034cecc). Rounding: bounded stand-in only.",
         note="A1; A2; A5; A6; A7 (helper sizes sampled; dynamic/sparse d2_fog not instantiated); A8.",
@@ -56,7 +56,7 @@ CLAIMED = {
     "C16": dict(
         text="Exact frames: on every path of every API shim the written cells are exactly the designated output range, const inputs and globals are never written, "
              "no access leaves a buffer; value objects and Map views give identical op-DAGs; sub-part views write exactly their sub-range; copies and casts map "
-             "coefficient k to k; aliased in-place operations equal value semantics.",
+             "coefficient k to k, the result of cast<S>() on a view is a value (not an alias of the viewed buffer); aliased in-place operations equal value semantics.",
         note="A6 irsx memory model; A8 scalar Eigen paths only (SSE packet paths and alignment dispatch not covered); A7.",
         tech=IRSX + "byte-exact written-cell sets (frames) and structural op-DAG identity", ref="4 C16"),
     "C17": dict(
@@ -71,7 +71,7 @@ CLAIMED["C20"] = dict(
     text="binary_interval_search: CBMC function contract (four documented cases, empty frame) and loop contract (inductive invariant, variant) on the C text "
          "extracted from the header by must-fire rules, all n <= 4096, all values, incl. pointer/overflow safety. Basis matrices K = 0..10 (8 bases, cumulative "
          "forms), monomial_integral and lgr_nodes 1..16 equal their mathematical definitions to 1e-9 in exact rational arithmetic on the compile-time constants; "
-         "monomial_derivative and lagrange_basis (K <= 3) symbolically exact; integrate_absolute_polynomial: break points are roots, result has the "
+         "monomial_derivative and lagrange_basis (K <= 4) symbolically exact (lagrange_basis K = 5..10: bounded, exact rational evaluation at sampled node sets); integrate_absolute_polynomial: break points are roots, result has the "
          "alternating-sign form (lemma A5). Near-degenerate quadratic coefficients not decided.",
     note="A3' (NaN-free elements: totally ordered abstraction) and IEEE sign facts of three stubbed sub-expressions; libstdc++ ranges::next transcription; "
          "A5; A6 (clang constexpr evaluation, CBMC dfcc, minisat); n <= 4096.",
@@ -86,7 +86,7 @@ CLAIMED["C19"] = dict(
          "host sizes Dof+{0,1,2,5}, Hessian hosts with n, n+2 and n-1 stacked blocks, double); A8.",
     tech=IRSX + "structural op-DAG identity and frames on Eigen::SparseMatrix storage; exact normal form for the support clauses", ref="4 C19")
 CLAIMED["C12"] = dict(
-    text="Shims evaluate both sides of each relation of the property (ConstantVelocity, out-of-range values, end points, derivatives, concat_local/global, crop with "
+    text="Shims evaluate both sides of each relation of the property (ConstantVelocity, out-of-range values, end points, derivatives, concat_local/global (also with a cropped operand), crop with "
          "and without localisation) through the public API; irsx executes std::vector, find_idx and the spline evaluation symbolically; every path reached by a "
          "stratified grid of time configurations (all orderings of the query/crop times relative to the knots, <= 3 segments) is proved for ALL control velocities "
          "and start elements; ConstantVelocity for all T, t, v symbolically, degrees 1..5. Found and repaired: ConstantVelocity T/3, crop knot offsets/localize=false.",
@@ -98,8 +98,8 @@ CLAIMED["C07"] = dict(
     text="SubManifold (M = SO3d, SE2d, Vector3d; all 8 fixed subsets): rplus moves only along free directions, keeps the origin, dof, rminus reports only free "
          "components, cast keeps value and origin; AnyManifold forwards to the wrapped type through its vtable and copies are independent; std::variant operations "
          "equal those of the active alternative and keep its index; Lie groups: rminus(rplus(m,a),m) = a and rminus(m,m) = 0 by composing the extracted operations. "
-         "Found and repaired: SubManifold cast swapped value and origin. The std::vector adaptor is not covered.",
-    note="A1; A2 (atan2 injectivity for |a_rot| < pi); A6 incl. unique_ptr/vtable/std::visit execution; A7; rewrite rule R3; std::vector<M> adaptor unverified.",
+         "Found and repaired: SubManifold cast swapped value and origin. The std::vector adaptor is covered by a bounded native stand-in only (axioms, dof, consecutive segments).",
+    note="A1; A2 (atan2 injectivity for |a_rot| < pi); A6 incl. unique_ptr/vtable/std::visit execution; A7; rewrite rule R3; std::vector<M> adaptor: bounded stand-in only.",
     tech=IRSX + "exact normal form and structural identity against the group contracts", ref="4 C07")
 CLAIMED["C18"] = dict(
     text="Effect contracts: every listed const operation has an empty shared-write frame on every path (no write inside a marked const region to storage initialised "
@@ -129,7 +129,7 @@ CLAIMED["C11"] = dict(
     text="cspline_eval_vs: value equals the product of the library's own exp/composition applied to B~_j(u) v_j (so, with C01/C02, the product of matrix "
          "exponentials), vel is the body velocity (D M = M hat(vel)), acc and jer its successive u-derivatives, for symbolic u and control differences; "
          "cspline_eval_dg_dvs: dg, dvel, dacc are the right-Jacobians w.r.t. every control difference (u fixed to sample values for non-commutative groups). "
-         "cspline_eval_gs (real pairwise view, rule R5) is the identical operation DAG of g_0 * cspline_eval_vs(g_i (-) g_(i-1)) with identical vel/acc. "
+         "cspline_eval_gs (real pairwise view, rule R5) is the identical operation DAG of g_0 * cspline_eval_vs(g_i (-) g_(i-1)) with identical vel/acc (SE2, SO3, vectors, SO2, C1). "
          "cspline_eval_dg_dgs equals the chain rule through the differences built from the public dr_expinv/dl_expinv/Ad/dg_dvs (K = 1 on SE2; K = 3, 6 on vector groups). "
          "Bernstein and B-spline bases; (K,G) configurations sampled. Undecided: dg_dgs for K >= 2 on non-commutative groups.",
     note="A1; A2; A6; A7 configurations; R1/R2/R5 rewrite rules; C20 ties the basis constants to their definitions; literal-rounding tolerance 1e-12 on coefficients "
@@ -155,7 +155,7 @@ CLAIMED["C08"] = dict(
          "when the callable provides them, return the callable's own jacobian/hessian verbatim; Numerical: every Jacobian column is, exactly in real arithmetic, the forward "
          "difference quotient (f(x (+) h e_c) - f(x))/h at a recorded evaluation point that differs from x in coordinate c only (right perturbation for Lie-group arguments), "
          "with h inside the window [1e-10, 1e-5] for every admissible coordinate; every Hessian entry is the second difference in the documented stacked layout with steps in "
-         "[4e-7, 2.5e-3]; index subsets return the corresponding columns; non-const arguments are restored (real arithmetic). With the Taylor lemma (A5) the windows give "
+         "[4e-7, 2.5e-3]; index subsets return the corresponding columns (also when a dynamically sized argument outside the subset is passed as an rvalue); non-const arguments are restored (real arithmetic). With the Taylor lemma (A5) the windows give "
          "the 1e-4 / 5e-2 accuracies for O(1) f. Found and repaired: dr<2> returned its first derivative with the coarse second-order step (4e-4 relative error). "
          "Floating-point accuracy and the 1e-15 restoration bound: bounded native stand-in only.",
     note="A1; A5 Taylor lemma with O(1) derivative bounds; A6 (std::tuple/apply/lambdas executed; uninterpreted functions as atoms per canonical argument tuple); A7 argument "
@@ -172,7 +172,7 @@ CLAIMED["C14"] = dict(
          "contracts, t_min <= t_i <= t_max for all dt > 0. fit_spline's interpolation step (block extracted verbatim): exp(v_1)...exp(v_K) = g^-1 g_next for K = 3 on SE2 and "
          "K = 5 on vectors (bounded for K = 5, 6 on SE2/SO3). fit_spline_1d: bounded stand-in for the linear constraints. That each word reaches the target (tangent-circle geometry) and global minimality are checked only by a bounded "
          "native stand-in against an independent brute-force evaluation. Found and repaired: spurious full turn for half-turn targets; un-pivoted KKT solve in fit_spline_1d. The rest of fit_spline is "
-         "NOT decided; reparameterize_spline only by a bounded stand-in (monotone, onto, start speed) on Dubins curves.",
+         "NOT decided; reparameterize_spline only by a bounded stand-in (monotone, onto, start speed) on Dubins curves and cubic SE2 BSplines with t_min != 0.",
     note="A1; A2; A5 (arc length = radius x angle); A6 incl. z3 and must-fire extraction rules; A7 targets/radii sampled, paths discovered concolically; C12/C13 contracts used; "
          "std::ranges::minmax assumed; sparse linear solves of fit_spline(_1d) and the LP passes of reparameterize_spline are outside the executor's reach.",
     tech=IRSX + "structural identity + z3 implication from the compiled comparison chain (Dubins word selection), exact normal form (segment velocities), z3 over "
